@@ -390,7 +390,12 @@ enum Ev {
 
 fn case_sched(bytes: &[u8], sched_bytes: &[u8], ctx: &mut Ctx) -> Result<(), Fail> {
     let mut src = Source::new(bytes);
-    let mut case = decode_sched(&mut src);
+    let case = decode_sched(&mut src);
+    run_sched(case, sched_bytes, None, ctx).map(|_| ())
+}
+
+/// Runs one schedule-lane case; returns the number of scheduler steps taken.
+fn run_sched(mut case: SchedCase, sched_bytes: &[u8], explicit: Option<Vec<(u64, usize)>>, ctx: &mut Ctx) -> Result<u64, Fail> {
     // unique histogram value tags
     let mut tag = 1u32;
     for u in case.updaters.iter_mut() {
@@ -401,7 +406,9 @@ fn case_sched(bytes: &[u8], sched_bytes: &[u8], ctx: &mut Ctx) -> Result<(), Fai
             }
         }
     }
-    ctx.case(&(&case, sched_bytes));
+    if explicit.is_none() {
+        ctx.case(&(&case, sched_bytes));
+    }
     let c = case.cfg.clone();
     let has_abs = case.updaters.iter().any(|u| u.iter().any(|o| matches!(o, UOp::Abs(_))));
     let mut driver = mk_driver(&c);
@@ -456,10 +463,10 @@ fn case_sched(bytes: &[u8], sched_bytes: &[u8], ctx: &mut Ctx) -> Result<(), Fai
         fuse.push(("dsd.counter.abs.mode_swapped", "dsd.counter.abs.current_stored"));
         ctx.excluded = Some("known-window-fused:absolute-rebase-during-flush");
     }
-    let out = sched::explore(sched_bytes, SchedOpts { fuse, max_steps: 6000, ..Default::default() }, bodies);
+    let out = sched::explore(sched_bytes, SchedOpts { fuse, max_steps: 6000, explicit, ..Default::default() }, bodies);
     if out.budget_exhausted {
         ctx.discard = true;
-        return Ok(());
+        return Ok(0);
     }
     ensure!(out.panics.is_empty(), "panic-in-thread", "{:?}", out.panics);
     ensure!(!out.livelock, "livelock", "{:?}", out.trace.iter().rev().take(8).collect::<Vec<_>>());
@@ -618,13 +625,89 @@ fn case_sched(bytes: &[u8], sched_bytes: &[u8], ctx: &mut Ctx) -> Result<(), Fai
     if inside {
         ctx.nontrivial("update-step-inside-flush");
     }
-    Ok(())
+    ctx.fingerprint = ctx.fingerprint.or(Some(crate::engine::runner::hash_str(&format!("{:?}", out.trace))));
+    Ok(out.steps)
+}
+
+fn exhaustive_scenarios() -> Vec<(&'static str, Vec<UOp>)> {
+    vec![("two increments || two flushes", vec![UOp::Inc(0, 3), UOp::Inc(0, 4)]), ("two histogram records || two flushes", vec![UOp::Record(0, 0), UOp::Record(0, 0)]), ("increment, gauge set || two flushes", vec![UOp::Inc(0, 2), UOp::GaugeSet(5.0)])]
+}
+
+fn exhaustive_case(ops: Vec<UOp>) -> SchedCase {
+    SchedCase {
+        cfg: Config { aggressive: false, prefix: None, globals: vec![], distributions: false, sampling: false, reservoir: 1, max_len: 8192, length_prefix: false },
+        counter_is_absolute: false,
+        updaters: vec![ops],
+        flushes: 2,
+        abs_window_open: false,
+    }
+}
+
+fn case_exhaustive_replay(bytes: &[u8], _s: &[u8], ctx: &mut Ctx) -> Result<(), Fail> {
+    let sc = exhaustive_scenarios();
+    let (name, ops) = sc[(*bytes.first().unwrap_or(&0) as usize).min(sc.len() - 1)].clone();
+    let sch: Vec<(u64, usize)> = bytes[1.min(bytes.len())..].chunks(2).filter(|c| c.len() == 2).map(|c| (c[0] as u64, c[1] as usize)).collect();
+    ctx.case(&(name, &sch));
+    run_sched(exhaustive_case(ops), &[], Some(sch), ctx).map(|_| ())
+}
+
+/// Bounded-exhaustive: every schedule with <= 2 preemptions of {one thread making two increments ||
+/// the flusher doing two flushes} and of {one thread recording two histogram values || flusher}.
+fn exhaustive(pr: &PropRun) -> crate::engine::runner::LaneReport {
+    use crate::engine::{runner::{LaneReport, Violation}, sched::schedules_le2};
+    let start = std::time::Instant::now();
+    let mut rep = LaneReport::named("exhaustive-le2-preemptions");
+    rep.exhaustive = true;
+    let mk = exhaustive_case;
+    let scenarios = exhaustive_scenarios();
+    for (si, (name, ops)) in scenarios.iter().enumerate() {
+        let mut ctx0 = Ctx::default();
+        let steps = match run_sched(mk(ops.clone()), &[], Some(vec![]), &mut ctx0) {
+            Ok(s) => s,
+            Err(f) => {
+                rep.violations.push(Violation { lane: "exhaustive-le2-preemptions".into(), sig: f.sig, msg: f.msg, bytes: vec![si as u8], sched: vec![], decoded: format!("{} without preemption", name) });
+                continue;
+            }
+        };
+        let schedules = schedules_le2(2, steps + 4);
+        let mut seen = std::collections::HashSet::new();
+        for (k, sch) in schedules.iter().enumerate() {
+            let mut ctx = Ctx::default();
+            let r = run_sched(mk(ops.clone()), &[], Some(sch.clone()), &mut ctx);
+            let fp = ctx.fingerprint.unwrap_or(k as u64) ^ ((si as u64) << 60);
+            ctx.fingerprint = Some(fp);
+            if !seen.insert(fp) {
+                ctx.nontrivial = false;
+            }
+            if k == 7 {
+                ctx.desc = Some(format!("scenario '{}' switches {:?}", name, sch));
+            }
+            rep.account(ctx);
+            if let Err(f) = r {
+                if pr.cfg.is_known(&f.sig) {
+                    rep.known_hits.entry(f.sig.clone()).or_insert((0, vec![], vec![], format!("{} {:?}", name, sch))).0 += 1;
+                } else {
+                    let mut bytes = vec![si as u8];
+                    for (s, t) in sch {
+                        bytes.push(*s as u8);
+                        bytes.push(*t as u8);
+                    }
+                    rep.violations.push(Violation { lane: "exhaustive-le2-preemptions".into(), sig: f.sig, msg: f.msg, bytes, sched: vec![], decoded: format!("scenario '{}' switches {:?}", name, sch) });
+                    break;
+                }
+            }
+        }
+        rep.notes.push(format!("scenario '{}': {} schedules, {} distinct interleavings", name, schedules.len(), seen.len()));
+    }
+    rep.wall_s = start.elapsed().as_secs_f64();
+    rep
 }
 
 pub fn run(cfg: &RunCfg, replay: Option<&str>) -> i32 {
     let mut pr = PropRun::new("C10", cfg, RULE);
     pr.register("sequential-model", &case_seq);
     pr.register("schedules", &case_sched);
+    pr.register("exhaustive-le2-preemptions", &case_exhaustive_replay);
     super::c10_e2e::register(&mut pr);
     if let Some(f) = replay {
         return pr.replay(f);
@@ -638,6 +721,8 @@ pub fn run(cfg: &RunCfg, replay: Option<&str>) -> i32 {
     let r = run_lane(&c, "C10", &Lane { name: "sequential-model", cases: c.cases(600_000, 10_000_000), max_len: 200, sched_len: 0, workers: 0, f: &case_seq });
     pr.push(r);
     let r = run_lane(&c, "C10", &Lane { name: "schedules", cases: c.cases(800_000, 20_000_000), max_len: 64, sched_len: 128, workers: 0, f: &case_sched });
+    pr.push(r);
+    let r = exhaustive(&pr);
     pr.push(r);
     let r = super::c10_e2e::lane(&pr);
     pr.push(r);
